@@ -179,11 +179,30 @@ def check(P: Project, R: Report) -> None:
                         created[nme] = "__aexit__"
     R.need(len(created) >= 6, f"only {len(created)} resource attributes found (7 confirmed by hand): {sorted(created)}")
     ctxt = ast.unparse(cleanup.node)
+
+    def released_in_loop(nme: str, rel_m: str) -> bool:
+        """`for x in (self.<nme>, …): x.<rel>()` (and `await x` for tasks)."""
+        for l in walk_local(cleanup.node):
+            if isinstance(l, (ast.For, ast.AsyncFor)) and isinstance(l.target, ast.Name):
+                it = ast.unparse(l.iter)
+                if f"self.{nme}" in it or f"'{nme}'" in it:
+                    body = "\n".join(ast.unparse(x) for x in l.body)
+                    if f"{l.target.id}.{rel_m}(" in body and (rel_m != "cancel" or f"await {l.target.id}" in body):
+                        return True
+        return False
+
     for nme, rel_m in sorted(created.items()):
         ok = f"self.{nme}.{rel_m}(" in ctxt
         if rel_m == "cancel":
             ok = ok and f"await self.{nme}" in ctxt
+        ok = ok or released_in_loop(nme, rel_m)
         R.ob("R4", f"self.{nme} is released by {rel_m}() in the cleanup routine", ok, cleanup.where, f"no `self.{nme}.{rel_m}(...)` in _cleanup", sample=f"R4 {nme} → {rel_m}")
+    # ordering: the pending per-request futures are cancelled before any task is joined — the sender task may be
+    # waiting on one of them and (justifiably) absorbs the CancelledError of that wait, so joining it first never returns
+    fut_cancel = [n.lineno for n in walk_local(cleanup.node) if isinstance(n, (ast.For,)) and "_pending_requests" in ast.unparse(n.iter) and any(isinstance(c, ast.Call) and call_name(c).endswith(".cancel") for c in walk_local(n))]
+    joins = [n.lineno for n in walk_local(cleanup.node) if isinstance(n, ast.Await) and ("_task" in ast.unparse(n.value) or (isinstance(n.value, ast.Name) and any(isinstance(l, ast.For) and isinstance(l.target, ast.Name) and l.target.id == n.value.id and "_task" in ast.unparse(l.iter) for l in walk_local(cleanup.node))))]
+    R.ob("R4", "pending request futures are cancelled before the tasks are joined", bool(fut_cancel) and bool(joins) and min(fut_cancel) < min(joins), cleanup.where,
+         f"futures cancelled at line {fut_cancel[:1]}, first task join at line {joins[:1]}: a sender blocked in the 202 wait absorbs its cancellation (it is the future's), so joining it before cancelling the futures blocks the shutdown forever")
     ax = meths["__aexit__"]
     first = [s for s in ax.node.body if not (isinstance(s, ast.Expr) and isinstance(s.value, ast.Constant))]
     R.ob("R4", "__aexit__ calls the cleanup routine unconditionally", bool(first) and isinstance(first[0], ast.Expr) and isinstance(first[0].value, ast.Await) and call_name(first[0].value.value) == f"self.{cleanup.name}", ax.where, "")
